@@ -24,20 +24,30 @@ CONSTANTS
     LoopDelayOwnFreeVars,     \* a delayed expression in a loop may mention variables the rest of the loop body does not
     LoopDurationMapped,       \* a duration in a loop that mentions the index / an indexed variable is mapped like the expression
     ParamValuesReachDelays,   \* replace_parameter_values also substitutes into the delay arguments
+    ChecksBeforeSave,         \* transfer_model runs _post_checks before the model is written to the cache (TRUE in the code)
+    AliasesReachDurations,    \* alias elimination rewrites delay durations as well as delayed expressions (TRUE in the code)
     Family
 
-VARIABLES prog, phase, dargs, raised, params, consts, out, last
-vars == <<prog, phase, dargs, raised, params, consts, out, last>>
+VARIABLES prog, phase, dargs, raised, params, consts, out, last,
+          req,       \* number of the transfer_model request (option set "cache": the model is requested twice)
+          cached,    \* the cache file holds this model: <<>> or <<delay arguments>>
+          first,     \* outcome of the first request
+          algs       \* algebraic variables left after simplification
+vars == <<prog, phase, dargs, raised, params, consts, out, last, req, cached, first, algs>>
 
-SW == [ownfree |-> LoopDelayOwnFreeVars, durmap |-> LoopDurationMapped, pvals |-> ParamValuesReachDelays]
-AsBuilt == [ownfree |-> FALSE, durmap |-> FALSE, pvals |-> FALSE]
+SW == [ownfree |-> LoopDelayOwnFreeVars, durmap |-> LoopDurationMapped, pvals |-> ParamValuesReachDelays,
+       chk |-> ChecksBeforeSave, aldur |-> AliasesReachDurations]
+(* the code as it is now: the for-loop handling still deviates; replace_parameter_values has been repaired in /repo *)
+AsBuilt == [ownfree |-> FALSE, durmap |-> FALSE, pvals |-> TRUE, chk |-> TRUE, aldur |-> TRUE]
 
 -----------------------------------------------------------------------------
 (* ---- the fixed variable universe of the family ---- *)
 (* name -> category (C.5): c constant, p / ps parameters, uf fixed input, u input, x state, a / xs / y / z / ys / zs algebraic *)
 Category == [c |-> "constant", p |-> "parameter", ps |-> "parameter", uf |-> "fixed input", u |-> "input",
              x |-> "state", a |-> "algebraic", xs |-> "algebraic", y |-> "algebraic", z |-> "algebraic",
-             ys |-> "algebraic", zs |-> "algebraic"]
+             ys |-> "algebraic", zs |-> "algebraic", b1 |-> "algebraic", b2 |-> "algebraic"]
+(* the model contains  b1 = b2  (an alias pair for detect_aliases) and  b2 = 2 * a *)
+AllAlgs == {"a", "xs", "y", "z", "ys", "zs", "b1", "b2"}
 Arrays == {"ps", "xs", "ys", "zs"}
 LoopValues == <<1, 2>>
 Forbidden == {"time", "state", "derivative", "algebraic", "input"}
@@ -73,8 +83,10 @@ DeclReject(p) == \E s \in DOMAIN p.sites : Cats(p.sites[s].dur) \cap Forbidden #
 
 (* evaluation points: integer values of the variables that are not constants / parameters *)
 NPoints == 2
-PointVal == << [uf |-> <<2>>, u |-> <<-1>>, x |-> <<3>>, a |-> <<-2>>, xs |-> <<2, -3>>, y |-> <<1>>, z |-> <<1>>, ys |-> <<1, 1>>, zs |-> <<1, 1>>],
-               [uf |-> <<-3>>, u |-> <<2>>, x |-> <<-1>>, a |-> <<3>>, xs |-> <<-2, 1>>, y |-> <<2>>, z |-> <<-1>>, ys |-> <<0, 2>>, zs |-> <<3, 1>>] >>
+PointVal == << [uf |-> <<2>>, u |-> <<-1>>, x |-> <<3>>, a |-> <<-2>>, xs |-> <<2, -3>>, y |-> <<1>>, z |-> <<1>>, ys |-> <<1, 1>>, zs |-> <<1, 1>>,
+                b1 |-> <<-4>>, b2 |-> <<-4>>],
+               [uf |-> <<-3>>, u |-> <<2>>, x |-> <<-1>>, a |-> <<3>>, xs |-> <<-2, 1>>, y |-> <<2>>, z |-> <<-1>>, ys |-> <<0, 2>>, zs |-> <<3, 1>>,
+                b1 |-> <<6>>, b2 |-> <<6>>] >>
 PointTime == <<2, -1>>
 PointDer == <<-2, 3>>
 ValueOf(n, pt) == IF n \in DOMAIN DeclValue THEN DeclValue[n] ELSE PointVal[pt][n]
@@ -136,6 +148,14 @@ Subst(e, names) ==
       [] e.k \in {"un", "bin"} -> [e EXCEPT !.a = [i \in DOMAIN e.a |-> Subst(e.a[i], names)]]
       [] OTHER -> e
 
+(* detect_aliases: b2 is an alias of b1 and is eliminated (which of the two survives is the implementation's choice;
+   the verdict and the values do not depend on it): every occurrence is rewritten to the survivor *)
+RECURSIVE Alias(_)
+Alias(e) ==
+    CASE e.k = "ref" /\ e.n = "b2" -> Ref("b1")
+      [] e.k \in {"un", "bin"} -> [e EXCEPT !.a = [i \in DOMAIN e.a |-> Alias(e.a[i])]]
+      [] OTHER -> e
+
 (* a delay argument after generation: expression per element, duration(s), and `hidden`: symbols the
    mapped expression depends on only structurally (the map call over the loop takes the free variables of the
    whole loop body as arguments, whether the delayed expression uses them or not) *)
@@ -161,26 +181,31 @@ GenSite(s, sw) ==
 (* simplification passes that touch the delay arguments, by option set *)
 SubstArg(d, names) == DArg([i \in DOMAIN d.exprs |-> Subst(d.exprs[i], names)], [i \in DOMAIN d.durs |-> Subst(d.durs[i], names)],
                            d.hidden \ names)
+AliasArg(d, sw) == DArg([i \in DOMAIN d.exprs |-> Alias(d.exprs[i])],
+                        IF sw.aldur THEN [i \in DOMAIN d.durs |-> Alias(d.durs[i])] ELSE d.durs, d.hidden)
 SimplifyArgs(ds, opt, sw) ==
     CASE opt = "constvals" -> [i \in DOMAIN ds |-> SubstArg(ds[i], {"c"})]
+      [] opt = "aliases" -> [i \in DOMAIN ds |-> AliasArg(ds[i], sw)]
       [] opt = "paramvals" -> IF sw.pvals THEN [i \in DOMAIN ds |-> SubstArg(ds[i], {"p", "ps"})] ELSE ds
       [] OTHER -> ds
 RemainingParams(opt) == IF opt = "paramvals" THEN {} ELSE {"p", "ps"}
 RemainingConsts(opt) == IF opt = "constvals" THEN {} ELSE {"c"}
+RemainingAlgs(opt) == IF opt = "aliases" THEN AllAlgs \ {"b2"} ELSE AllAlgs
 
 (* _post_checks: symbols a duration may not depend on *)
-ForbiddenSyms(nsites) == {"time", "der(x)", "x", "a", "xs", "y", "z", "ys", "zs", "u"}
-                         \cup {"_pymoca_delay"}          \* delayed symbols are inputs that are not fixed
+ForbiddenSyms(al) == {"time", "der(x)", "x", "u"} \cup al
+                      \cup {"_pymoca_delay"}          \* delayed symbols are inputs that are not fixed
 DurSyms(ds) == UNION {UNION {Syms(ds[i].durs[j]) : j \in DOMAIN ds[i].durs} : i \in DOMAIN ds}
 ArgSyms(ds) == DurSyms(ds) \cup UNION {UNION {Syms(ds[i].exprs[j]) : j \in DOMAIN ds[i].exprs} : i \in DOMAIN ds}
                \cup UNION {ds[i].hidden : i \in DOMAIN ds}
-FunctionInputs(ps, cs) == {"time", "der(x)", "x", "a", "xs", "y", "z", "ys", "zs", "u", "uf"} \cup ps \cup cs
+FunctionInputs(ps, cs, al) == {"time", "der(x)", "x", "u", "uf"} \cup al \cup ps \cup cs
 
 (* delay_arguments_function evaluated at a point: one pair per element, durations broadcast *)
 ArgPairs(d, pt) == [j \in DOMAIN d.exprs |-> <<Eval(d.exprs[j], pt, 0), Eval(d.durs[IF Len(d.durs) = 1 THEN 1 ELSE j], pt, 0)>>]
 OpArgs(ds, pt) == Concat([i \in DOMAIN ds |-> ArgPairs(ds[i], pt)])
 
 NoOut == [verdict |-> "", function |-> "", args |-> <<>>]
+NoFirst == [verdict |-> "", function |-> "", args |-> <<>>, raised |-> ""]
 
 -----------------------------------------------------------------------------
 (* ---- program families ---- *)
@@ -199,18 +224,30 @@ Loops(opt) == {Prog("loop", <<Site(TRUE, e, d, b)>>, opt) : e \in LoopExprs, d \
 Mixed(opt) == {Prog("mixed", <<Site(FALSE, Expr2, d1, FALSE), Site(TRUE, IRef("xs"), d2, FALSE)>>, opt) :
                   d1 \in {Ref("p"), Bin("+", Ref("p"), Ref("uf")), Ref("c"), Ref("x")}, d2 \in {Ref("c"), Ref("p"), Ref("uf"), Ref("a"), IRef("ps")}}
 Opts == {"constvals", "paramvals", "expand"}
+(* alias elimination: durations and expressions on either member of the alias pair *)
+AliasProgs == {Prog("alias", <<Site(FALSE, e, d, FALSE)>>, o) :
+                  e \in {Expr1, Bin("*", Ref("b2"), Ref("p")), Bin("+", Ref("b1"), Ref("x"))},
+                  d \in {Ref("b1"), Ref("b2"), Bin("+", Ref("b2"), Ref("p")), Ref("p"), Bin("+", Ref("p"), Ref("uf"))},
+                  o \in {"aliases", "default"}}
+(* the model cache: the same request twice *)
+CacheProgs == Outside(Atoms, {Expr1}, "cache")
+              \cup {Prog("mixed", <<Site(FALSE, Expr2, d1, FALSE), Site(TRUE, IRef("xs"), d2, FALSE)>>, "cache") :
+                       d1 \in {Ref("p"), Bin("+", Ref("p"), Ref("uf")), Ref("x")}, d2 \in {Ref("c"), Ref("p"), Ref("uf"), Ref("a")}}
 
 Programs ==
     CASE Family = "quick" ->
             Outside(Atoms \cup PairDurs, {Expr1}, "default") \cup Outside(Atoms, {Expr2}, "default")
             \cup Loops("default") \cup Mixed("default")
             \cup UNION {Outside(Atoms, {Expr2}, o) \cup Mixed(o) : o \in Opts}
+            \cup AliasProgs \cup CacheProgs
       [] Family = "thorough" ->
             Outside(Atoms \cup PairDurs \cup OtherDurs, {Expr1, Expr2}, "default") \cup TwoSites("default")
             \cup Loops("default") \cup Mixed("default")
             \cup UNION {Outside(Atoms \cup PairDurs, {Expr2}, o) \cup Mixed(o) \cup Loops(o) \cup TwoSites(o) : o \in Opts}
+            \cup AliasProgs \cup CacheProgs \cup Outside(PairDurs, {Expr2}, "cache")
       [] Family = "cex" ->
             Outside(Atoms, {Expr1}, "default") \cup Loops("default") \cup Outside({Ref("p")}, {Expr1}, "paramvals")
+            \cup AliasProgs \cup Outside(Atoms, {Expr1}, "cache")
 
 -----------------------------------------------------------------------------
 (* ---- behaviour: the phases of transfer_model ---- *)
@@ -219,6 +256,7 @@ Init == /\ prog \in Programs
         /\ dargs = <<>> /\ raised = ""
         /\ params = {"p", "ps"} /\ consts = {"c"}
         /\ out = NoOut
+        /\ req = 1 /\ cached = <<>> /\ first = NoFirst /\ algs = AllAlgs
         /\ last = [act |-> "init"]
 
 (* generator.generate: every delay site in order *)
@@ -234,35 +272,57 @@ Generate ==
                 /\ phase' = "simplify"
                 /\ UNCHANGED <<raised, out>>
     /\ last' = [act |-> "Generate"]
-    /\ UNCHANGED <<prog, params, consts>>
+    /\ UNCHANGED <<prog, params, consts, req, cached, first, algs>>
 
 Simplify ==
     /\ phase = "simplify"
     /\ dargs' = SimplifyArgs(dargs, prog.opt, SW)
     /\ params' = RemainingParams(prog.opt)
     /\ consts' = RemainingConsts(prog.opt)
-    /\ phase' = "postcheck"
+    /\ algs' = RemainingAlgs(prog.opt)
+    /\ phase' = IF prog.opt = "cache" /\ ~SW.chk THEN "save" ELSE "postcheck"
     /\ last' = [act |-> "Simplify"]
-    /\ UNCHANGED <<prog, raised, out>>
+    /\ UNCHANGED <<prog, raised, out, req, cached, first>>
 
 PostChecks ==
     /\ phase = "postcheck"
-    /\ IF DurSyms(dargs) \cap ForbiddenSyms(Len(prog.sites)) # {}
+    /\ IF DurSyms(dargs) \cap ForbiddenSyms(algs) # {}
        THEN /\ raised' = "ValueError" /\ phase' = "done" /\ out' = [NoOut EXCEPT !.verdict = "reject"]
-       ELSE /\ phase' = "function" /\ out' = [NoOut EXCEPT !.verdict = "accept"] /\ UNCHANGED raised
+       ELSE /\ phase' = (IF prog.opt = "cache" /\ SW.chk /\ cached = <<>> THEN "save" ELSE "function")
+            /\ out' = [NoOut EXCEPT !.verdict = "accept"] /\ UNCHANGED raised
     /\ last' = [act |-> "PostChecks"]
-    /\ UNCHANGED <<prog, dargs, params, consts>>
+    /\ UNCHANGED <<prog, dargs, params, consts, req, cached, first, algs>>
+
+(* api.save_model: the compiled model goes to the cache file *)
+SaveModel ==
+    /\ phase = "save"
+    /\ cached' = <<dargs>>
+    /\ phase' = IF SW.chk THEN "function" ELSE "postcheck"
+    /\ last' = [act |-> "SaveModel"]
+    /\ UNCHANGED <<prog, dargs, raised, params, consts, out, req, first, algs>>
+
+(* the same request again: api.load_model answers from the cache file when there is one, otherwise everything is redone *)
+SecondRequest ==
+    /\ phase = "done" /\ prog.opt = "cache" /\ req = 1
+    /\ req' = 2
+    /\ first' = [verdict |-> out.verdict, function |-> out.function, args |-> out.args, raised |-> raised]
+    /\ raised' = ""
+    /\ IF cached # <<>>
+       THEN /\ dargs' = cached[1] /\ phase' = "function" /\ out' = [NoOut EXCEPT !.verdict = "accept"]
+       ELSE /\ dargs' = <<>> /\ phase' = "generate" /\ out' = NoOut
+    /\ last' = [act |-> "SecondRequest"]
+    /\ UNCHANGED <<prog, params, consts, cached, algs>>
 
 DelayArgumentsFunction ==
     /\ phase = "function"
-    /\ IF ArgSyms(dargs) \subseteq FunctionInputs(params, consts)
+    /\ IF ArgSyms(dargs) \subseteq FunctionInputs(params, consts, algs)
        THEN out' = [out EXCEPT !.function = "built", !.args = [pt \in 1..NPoints |-> OpArgs(dargs, pt)]]
        ELSE out' = [out EXCEPT !.function = "free symbols"]
     /\ phase' = "done"
     /\ last' = [act |-> "DelayArgumentsFunction"]
-    /\ UNCHANGED <<prog, dargs, raised, params, consts>>
+    /\ UNCHANGED <<prog, dargs, raised, params, consts, req, cached, first, algs>>
 
-Next == Generate \/ Simplify \/ PostChecks \/ DelayArgumentsFunction
+Next == Generate \/ Simplify \/ PostChecks \/ SaveModel \/ DelayArgumentsFunction \/ SecondRequest
 Spec == Init /\ [][Next]_vars
 
 -----------------------------------------------------------------------------
@@ -277,7 +337,10 @@ ArgumentsPreserved == (phase = "done" /\ ~DeclReject(prog)) =>
                          /\ out.args = [pt \in 1..NPoints |-> DeclArgs(prog, pt)]
 (* the check of the operational side never sees a loop placeholder: after generation durations are closed *)
 NoPlaceholderLeft == phase \in {"simplify", "postcheck", "function"} => \A s \in ArgSyms(dargs) : ~IsPlaceholder(s)
-TypeOK == phase \in {"generate", "simplify", "postcheck", "function", "done"}
+(* the cache never holds a model the duration check rejects, and asking again gives the same answer *)
+CacheHoldsOnlyAccepted == cached # <<>> => ~DeclReject(prog)
+SameAnswerTwice == (phase = "done" /\ req = 2) => (out.verdict = first.verdict /\ out.args = first.args)
+TypeOK == phase \in {"generate", "simplify", "postcheck", "save", "function", "done"}
 
 -----------------------------------------------------------------------------
 (* the whole pipeline as a function of the switches (as-built prediction for the binding) *)
@@ -286,9 +349,9 @@ Pred(p, sw) ==
         bad == {s \in DOMAIN gs : gs[s].raise # ""}
     IN  IF bad # {} THEN [verdict |-> "raised", function |-> "", args |-> <<>>, raised |-> "AssertionError"]
         ELSE LET ds == SimplifyArgs([s \in DOMAIN gs |-> gs[s].darg], p.opt, sw) IN
-             IF DurSyms(ds) \cap ForbiddenSyms(Len(p.sites)) # {}
+             IF DurSyms(ds) \cap ForbiddenSyms(RemainingAlgs(p.opt)) # {}
              THEN [verdict |-> "reject", function |-> "", args |-> <<>>, raised |-> "ValueError"]
-             ELSE IF ArgSyms(ds) \subseteq FunctionInputs(RemainingParams(p.opt), RemainingConsts(p.opt))
+             ELSE IF ArgSyms(ds) \subseteq FunctionInputs(RemainingParams(p.opt), RemainingConsts(p.opt), RemainingAlgs(p.opt))
                   THEN [verdict |-> "accept", function |-> "built", args |-> [pt \in 1..NPoints |-> OpArgs(ds, pt)], raised |-> ""]
                   ELSE [verdict |-> "accept", function |-> "free symbols", args |-> <<>>, raised |-> ""]
 
@@ -306,12 +369,13 @@ Tags(p) ==
 SetToSeq(S) == LET RECURSIVE f(_) f(R) == IF R = {} THEN <<>> ELSE LET x == CHOOSE x \in R : TRUE IN <<x>> \o f(R \ {x}) IN f(S)
 PointOf(pt) == [val |-> PointVal[pt], time |-> PointTime[pt], der |-> PointDer[pt], decl |-> DeclValue]
 
-View == <<prog, phase, dargs, raised, params, consts, out>>
+View == <<prog, phase, dargs, raised, params, consts, out, req, cached, first, algs>>
 Log ==
-    IF phase' = "done"
+    IF phase' = "done" /\ (prog.opt # "cache" \/ req' = 2)
     THEN PrintT(<<"PROG", ToJson([prog |-> prog, tags |-> SetToSeq(Tags(prog)), expect |-> Expect(prog),
                                   points |-> [pt \in 1..NPoints |-> PointOf(pt)],
                                   pred |-> [verdict |-> out'.verdict, function |-> out'.function, args |-> out'.args, raised |-> raised'],
+                                  first |-> first',
                                   asbuilt |-> Pred(prog, AsBuilt)])>>)
     ELSE TRUE
 =============================================================================
